@@ -83,6 +83,26 @@ def run(ctx):
         out.append(pre + [o])
         for o, dd in vs:
             out.append(pre + [o])
+        # short writes: a file size limit (SIGXFSZ ignored) cuts every write that crosses it - the kernel writes the
+        # part below the limit and fails the next attempt with EFBIG.  Limits around the sizes of the files of the run.
+        fsz = os.path.getsize(ip.paths(base)["F"]) if os.path.exists(ip.paths(base)["F"]) else 0
+        osz = os.path.getsize(ip.paths(d1)["F"]) if os.path.exists(ip.paths(d1)["F"]) else 0
+        lims = sorted({1, 16, 40, 4096, 8192, fsz // 2, fsz - 1, osz // 2, osz - 1, osz + 1, (osz + fsz) // 2} - {0, -1})
+        if quick and wi == 0:
+            lims = [x for x in lims if x in (1, 16, fsz - 1)]
+        if os.environ.get("C13_DEBUG"):
+            log("fsize %s wi=%d alt=%s fsz=%d osz=%d lims=%s" % (key, wi, alt, fsz, osz, lims))
+        for lim in lims:
+            dl = os.path.join(d, "fsize%d" % lim)
+            ip.copy_dir(base, dl)
+            ex, rc, sysl, err = ip.traced_run(w, dl, last["k"], rm, fsize=lim)
+            hit = [e for e in sysl if "EFBIG" in e["line"]]
+            if not hit or not all(ip.relevant(e) for e in hit):
+                continue            # no write was cut, or a write to a file outside the protocol (the debug files of --tracking / -p): as for the errno injections
+            o = {"e": "Run", "k": last["k"], "m": last["m"], "inj": "fault", "exit": ex, "label": "fsize=%d" % lim, "rm": rm,
+                 "sig": "fault:write:fsize:%s" % eng.cls(hit[0]), "inject": [], "fsize": lim, "rc": rc}
+            o.update(ip.snapshot(w, dl))
+            out.append(pre + [o])
         shutil.rmtree(d, ignore_errors=True)
         return (job, out, nrel, lines)
 
@@ -107,7 +127,7 @@ def run(ctx):
     ctx.cov["evaluations"] = npoints
     ctx.cov["rule"] = ("TLC enumerates injection-free histories (<=3 steps) of InPlace; one scenario per (prior state, mode, "
                        "input kind, same/other config); for the last run of each scenario: kill before EVERY file-related "
-                       "syscall of the baseline strace log, errno on every open/write/close/rename/mkdir (pairs in thorough); "
+                       "syscall of the baseline strace log, errno on every open/write/close/rename/mkdir (pairs in thorough), file size limits that cut the writes short; "
                        "distinct = distinct (scenario, injection label); non-trivial = an injection was applied")
     ctx.cov["distinct_nontrivial"] = len({(str(m[0][2]), m[0][4], m[0][0], m[1].get("label")) for m in meta
                                           if m[1].get("label") not in (None, "none")})
@@ -141,7 +161,7 @@ def run(ctx):
     ctx.cov["exhaustive"] = True
     ctx.assumptions += [
         "a crash is a process kill (SIGKILL on syscall entry via strace inject); power loss / unsynced data are out of scope",
-        "faults are errno injections on open/write/close/rename/mkdir; short writes cannot be injected faithfully by strace and are not explored",
+        "faults are errno injections on open/write/close/rename/mkdir, and short writes produced by the kernel itself under a file size limit (RLIMIT_FSIZE around the sizes of the files of the run, SIGXFSZ ignored: the part below the limit is written, the next write fails with EFBIG); a short write that is followed by a successful retry is not explored",
         "close() failing on a descriptor that was only read from is treated as benign",
         "contents are classified against reference bytes (original, formatted by an independent run to stdout); anything else is 'part'",
     ]
@@ -162,10 +182,10 @@ def replay(path):
             elif e["e"] == "User":
                 ip.user_write(w, d, e["c"]); print("user writes", e["c"])
             else:
-                ex, rc, sysl, err = ip.traced_run(w, d, e["k"], e.get("rm", e["m"]), inject=e.get("inject") or [])
+                ex, rc, sysl, err = ip.traced_run(w, d, e["k"], e.get("rm", e["m"]), inject=e.get("inject") or [], fsize=e.get("fsize"))
                 snap = ip.snapshot(w, d)
-                print("run cfg=%s mode=%s inject=%s -> exit=%s rc=%s observed=%s recorded=%s" % (
-                    e["k"], e.get("rm", e["m"]), e.get("inject"), ex, rc, snap, {k: e[k] for k in "FTBM"}))
+                print("run cfg=%s mode=%s inject=%s fsize=%s -> exit=%s rc=%s observed=%s recorded=%s" % (
+                    e["k"], e.get("rm", e["m"]), e.get("inject"), e.get("fsize"), ex, rc, snap, {k: e[k] for k in "FTBM"}))
         print("expected:", rp["what"])
     finally:
         wk.cleanup()
